@@ -14,7 +14,7 @@ import (
 
 func (g *Gen) newFnCtx(fn *ssa.Function, sp *FuncSpec) *FnCtx {
 	fc := &FnCtx{g: g, fn: fn, spec: sp, declared: map[string]string{}, sorts: map[string]string{}, assumpt: map[string]bool{},
-		locals: map[*ssa.Alloc]bool{}, callOrd: map[string]int{}, closures: map[ssa.Value]*ssa.MakeClosure{}, propFlags: map[int][]propFlag{}, ground: map[string]bool{}, localMaps: map[string]bool{},
+		locals: map[*ssa.Alloc]bool{}, callOrd: map[string]int{}, closures: map[ssa.Value]*ssa.MakeClosure{}, propFlags: map[int][]propFlag{}, ground: map[string]bool{}, localMaps: map[string]bool{}, refArr: map[string]bool{},
 		modMemo: map[*ssa.Function]*ModSet{}, modBusy: map[*ssa.Function]bool{}}
 	if sp.Mode == "bv" {
 		fc.m = M{ModeBV}
@@ -439,7 +439,11 @@ func (g *Gen) discharge(fcs []*FnCtx, filter func(*Oblig) bool) {
 				defer wg.Done()
 				o.Query = fc.buildQuery(o)
 				to := g.timeoutS
+				if o.Cover && to > 6 {
+					to = 6 // a cover that needs longer falls back to its quantifier-free part
+				}
 				r := runPortfolio(o.Name, o.Query, to, g.seed)
+				to = g.timeoutS
 				o.Result = r
 				switch {
 				case o.Cover:
@@ -449,7 +453,25 @@ func (g *Gen) discharge(fcs []*FnCtx, filter func(*Oblig) bool) {
 					case "unsat":
 						o.Status = "cover-vacuous"
 					default:
-						o.Status = "cover-undecided"
+						// quantified assumptions make satisfiability undecidable in practice: fall back to the
+						// quantifier-free part (catches ground contradictions; reported as a weaker cover)
+						var qf []string
+						for _, l := range strings.Split(o.Query, "\n") {
+							if strings.HasPrefix(l, "(assert") && (strings.Contains(l, "(forall ") || strings.Contains(l, "(exists ")) {
+								continue
+							}
+							qf = append(qf, l)
+						}
+						r2 := runPortfolio(o.Name+"/qf", strings.Join(qf, "\n"), to, g.seed)
+						switch r2.Verdict {
+						case "sat":
+							o.Status = "cover-ok-qf"
+						case "unsat":
+							o.Status = "cover-vacuous"
+							o.Result = r2
+						default:
+							o.Status = "cover-undecided"
+						}
 					}
 				case r.Verdict == "unsat":
 					o.Status = "discharged"
